@@ -1,10 +1,12 @@
 import GoNfsd.Driver.Mkfs
 import GoNfsd.Driver.Xdr
+import GoNfsd.Driver.Fs
 
 def main (args : List String) : IO UInt32 :=
   match args with
   | ["mkfs"] => GoNfsd.Driver.Mkfs.main
   | ["xdr"] => GoNfsd.Driver.Xdr.main
+  | ["fs"] => GoNfsd.Driver.Fs.main
   | _ => do
     IO.eprintln "usage: drv <mkfs>"
     return 2
